@@ -116,4 +116,35 @@ theorem C05_no_timeout_drops_only_closed (s : State) (l : List (ConnId × Nat))
     (h : s.cfg.idleTimeout = none ∨ s.cfg.idleTimeout = some 0) : ∀ c ∈ (idlePop s l).2.2, isOpenC s c = false :=
   C05_pop_drops_only_closed s l (fun x _ => C05_no_timeout_never_expires s x.2 h)
 
+
+/-- **C05 (exactly which connection `pop` returns).** It is the most recent entry that is open; everything more
+    recent was closed (and unexpired) and is exactly what is discarded; everything older stays, untouched. -/
+theorem C05_pop_split (s : State) (l : List (ConnId × Nat)) (c : ConnId) (h : (idlePop s l).1 = some c) :
+    ∃ pre at_, l = pre ++ (c, at_) :: (idlePop s l).2.1 ∧
+      (∀ x ∈ pre, isOpenC s x.1 = false ∧ expired s x.2 = false) ∧
+      isOpenC s c = true ∧ expired s at_ = false ∧ (idlePop s l).2.2 = pre.map (·.1) := by
+  induction l with
+  | nil => simp [idlePop] at h
+  | cons x rest ih =>
+    obtain ⟨c', at'⟩ := x
+    simp only [idlePop] at h ⊢
+    by_cases hexp : expired s at' = true
+    · simp [hexp] at h
+    · rw [if_neg hexp] at h ⊢
+      by_cases hopen : isOpenC s c' = true
+      · rw [if_pos hopen] at h ⊢
+        simp at h; subst h
+        exact ⟨[], at', by simp, by simp, hopen, by simpa using hexp, by simp⟩
+      · rw [if_neg hopen] at h ⊢
+        generalize hres : idlePop s rest = res at h ih ⊢
+        obtain ⟨r, l', d⟩ := res
+        simp only [] at h ih ⊢
+        obtain ⟨pre, a, h1, h2, h3, h4, h5⟩ := ih h
+        refine ⟨(c', at') :: pre, a, by simp [h1], ?_, h3, h4, by simp [h5]⟩
+        intro y hy
+        simp only [List.mem_cons] at hy
+        rcases hy with rfl | hy
+        · exact ⟨by simpa using hopen, by simpa using hexp⟩
+        · exact h2 y hy
+
 end Hd.Pool
